@@ -1,6 +1,7 @@
 import SkyllhModel.Proto
 import SkyllhModel.Model.Livetime
 import SkyllhModel.Model.Pdf
+import SkyllhModel.Model.PdfR7
 open Proto Pdf
 
 /-  requests (floats as IEEE bit patterns, lists comma separated, `-` = empty list):
@@ -29,6 +30,10 @@ open Proto Pdf
       tstate2 <ts list> <te list> <edges> <prof> <op>*         -> what get_pd returns at each G (fixed code)
              op = L<edges> | Q<k> | X<k> (profile mutated outside) | M<edges> (interval array replaced
                   behind the PDF) | I<times> (initialize_for_new_trial) | G (get_pd) | V<t> (validity check of one time -> v0|v1)
+      trows <ts list> <te list> <edges> <prof> <gated 0|1> <op>* -> per R op: the per-source densities `l1|l2|…` (ERR = window query raised)
+             op = L/Q/X/M/V as in tstate2 (V answers nothing) | I<times> (initialize_for_new_trial through _calculate_pd) |
+                  R<times>/<row>:<row>… (get_pd with a parameter recarray; row = n (empty row) | k (values of profile k))
+      tbkg <ts list> <te list> <edges> <prof> <op>*            -> BackgroundTimePDF: ops as tstate2; per G the densities or RT (RuntimeError), per V v0|v1
       tstate <ts list> <te list> <edges> <prof> <op>*          -> S after init and after each op
              op = P<k> (set_params -> profile k) | Q<k> (time_flux_profile = k) | L<edges>
 -/
@@ -217,6 +222,64 @@ def answer (line : String) : String :=
               else .initTrial (pList pF arg)
             go2 (tStep2 true table val s op) rest
       let outs := go2 (tInit2 table (pairs es) p.toNat!) ops
+      if outs.isEmpty then "none" else String.intercalate " " outs
+  | "trows" :: tss :: tes :: es :: p :: g :: ops =>
+      let (tss, tes) := (pList pF tss, pList pF tes)
+      let table := boxTable tss tes
+      let gated := g == "1"
+      let val : Nat → Float → Float := fun k => match tss[k]?, tes[k]? with
+        | some ts, some te => boxVal ts te
+        | _, _ => fun _ => 0.0
+      let rec go3 (s : TState2 Float) : List String → List String
+        | [] => []
+        | o :: rest =>
+          let arg := (o.drop 1).toString
+          if o.startsWith "R" then
+            match arg.splitOn "/" with
+            | [ts, rs] =>
+              let times := pList pF ts
+              let rows : List (Option Nat) := (rs.splitOn ":").map (fun r => if r == "n" then none else some r.toNat!)
+              let (s1, outs) := tGetRows gated table val s times rows
+              String.intercalate "|" (outs.map (fun o => match o with
+                | some l => fListD fF l
+                | none => "ERR")) :: go3 s1 rest
+            | _ => ["bad-R"]
+          else
+            let op : TOp3 Float :=
+              if o.startsWith "L" then .base (.setLivetime (pairs arg))
+              else if o.startsWith "M" then .base (.livetimeMutated (pairs arg))
+              else if o.startsWith "Q" then .base (.setProfile arg.toNat!)
+              else if o.startsWith "X" then .base (.profileMutated arg.toNat!)
+              else if o.startsWith "V" then .base .checkValid
+              else .initRows (pList pF arg)
+            go3 (tStep3 gated table val s op) rest
+      let outs := go3 (tInit2 table (pairs es) p.toNat!) ops
+      if outs.isEmpty then "none" else String.intercalate " " outs
+  | "tbkg" :: tss :: tes :: es :: p :: ops =>
+      let (tss, tes) := (pList pF tss, pList pF tes)
+      let table := boxTable tss tes
+      let val : Nat → Float → Float := fun k => match tss[k]?, tes[k]? with
+        | some ts, some te => boxVal ts te
+        | _, _ => fun _ => 0.0
+      let rec goB (s : TState2 Float) : List String → List String
+        | [] => []
+        | o :: rest =>
+          let arg := (o.drop 1).toString
+          if o == "G" then
+            (match bGet s with
+              | some l => fListD fF l
+              | none => "RT") :: goB (bStep table val s .getPd) rest
+          else if o.startsWith "V" then
+            (if tValid true table s (pF arg) then "v1" else "v0") :: goB (bStep table val s .checkValid) rest
+          else
+            let op : TOp2 Float :=
+              if o.startsWith "L" then .setLivetime (pairs arg)
+              else if o.startsWith "M" then .livetimeMutated (pairs arg)
+              else if o.startsWith "Q" then .setProfile arg.toNat!
+              else if o.startsWith "X" then .profileMutated arg.toNat!
+              else .initTrial (pList pF arg)
+            goB (bStep table val s op) rest
+      let outs := goB (tInit2 table (pairs es) p.toNat!) ops
       if outs.isEmpty then "none" else String.intercalate " " outs
   | "tstate" :: tss :: tes :: es :: p :: ops =>
       stateAnswer (pList pF tss) (pList pF tes) (pairs es) p.toNat! ops
